@@ -85,7 +85,7 @@ Qed.
 Definition tw_tok : tok := mkTok 0 0 1 true 7%N.
 Definition tw_run : list event :=
   [EConnOpen 0; EIngest tw_tok; EFrame 0; ESinkSend 0; EFlushTimeout 0 1; EStopReq; EConnEnd 0; EInputsStopped;
-   EWorkerStop 1 1 AMem; EDestroy 1; EClientStop 1; EClientDone 1; EFeederEnd 1; EStopped].
+   EWorkerStop 1 1 AMem; EDestroy 1; EFeederBreak 1; EClientStop 1; EClientDone 1; EFeederEnd 1; EStopped].
 
 Definition tw_check : bool :=
   match steps init tw_run with
